@@ -161,6 +161,8 @@ type World struct {
 	ClientKeys *KeyLog
 	ServerKeys *KeyLog
 	Obs        *Observer
+	mu         sync.Mutex
+	Judged     map[string]int // counters of WireCheck: how many packets the "opened by the peer" check judged / skipped
 }
 
 // Observe attaches the decrypting wire observer to the router (classes then include packet kinds of all
